@@ -83,6 +83,18 @@ T_CHILD = "child-with-upstream-basins"
 T_FAST = "fastpath-nd-from-mapped-basin"
 
 
+TAINTS = (T_CHILD, T_FAST)
+
+
+def sg(sub, cls, *rest):
+    """failure signature; everything downstream of a known-defective export
+    collapses into one signature per defect class"""
+    if cls in TAINTS:
+        return f"tainted/{cls}"
+    return "/".join([sub] + [str(r) for r in rest[:1]] + [cls]
+                    + [str(r) for r in rest[1:]])
+
+
 def kind_of(f):
     if f in ND:
         return "nd"
@@ -99,11 +111,12 @@ IDX = st.lists(st.integers(0, 63), min_size=1, max_size=48)
 
 @st.composite
 def st_map(draw):
-    k = draw(st.sampled_from(["list", "list", "list", "perm", "repeat", "stride",
-                              "cross", "identity", "one"]))
+    k = draw(st.sampled_from(["list", "list", "list", "list", "perm", "repeat",
+                              "stride", "cross", "identity", "one"]))
     if k == "list":
-        return {"k": "list", "idx": draw(IDX), "sort": draw(st.booleans()),
-                "uniq": draw(st.booleans())}
+        return {"k": "list", "idx": draw(IDX),
+                "sort": draw(st.sampled_from([False, False, True])),
+                "uniq": draw(st.sampled_from([False, False, True]))}
     if k == "perm":
         return {"k": "perm", "seed": draw(st.integers(0, 999))}
     if k == "repeat":
@@ -130,7 +143,7 @@ def st_internal(draw):
 def st_step(draw, pos):
     op = draw(st.sampled_from(["ref", "ref", "ref", "export", "export", "export",
                                "export", "copy", "move"]))
-    src = draw(st.one_of(st.just(0), st.integers(0, 7), st.just(7)))
+    src = draw(st.sampled_from([0, 0, 0, 0, 1, 1, 2, 3, 9, 9]))
     sub = draw(st.sampled_from([False, False, False, True]))
     if op == "ref":
         return {"op": "ref", "src": src, "sub": sub,
@@ -145,7 +158,7 @@ def st_step(draw, pos):
     if op == "export":
         nlev = draw(st.sampled_from([1, 1, 1, 2, 2, 3]))
         if nlev > 1 and draw(st.booleans()):
-            src = 0
+            src = 9
         return {"op": "export", "src": src, "sub": sub,
                 "masks": [draw(BITS) for _ in range(nlev)],
                 "filtered": draw(st.sampled_from([True, True, True, False])),
@@ -457,9 +470,15 @@ class Run:
     def clean_files(self):
         return [f for f in self.model.files if not f.taint]
 
-    def pick_src(self, i):
+    def pick_src(self, i, avoid_origin=False):
+        """i counts backwards from the newest usable file (0 = newest), so
+        that chains grow; 9 = the origin"""
         fl = self.clean_files()
-        return fl[i % len(fl)]
+        if i >= 9:
+            return fl[0]
+        if avoid_origin and len(fl) > 1:
+            fl = fl[1:]
+        return fl[len(fl) - 1 - (i % len(fl))]
 
     # -- steps
     def origin(self):
@@ -629,6 +648,9 @@ class Run:
                       if f not in src.own and kind_of(f) == "nd" and fastpath
                       and model.cands(src, f)[0][1] == "mapped"]
         child_taint = nchild > 0 and len(upstream) > 0
+        tr = model.cands(src, "trace") if "trace" not in src.own else []
+        trace_mapped = nchild > 0 and any(c[1] == "mapped" for c in tr)
+        stage = "open"
         try:
             with dclab.new_dataset(src.path) as ds:
                 cur = ds
@@ -637,16 +659,23 @@ class Run:
                     cur.filter.manual[:] = bits_mask(bits, len(cur))
                     cur.apply_filter()
                     if lvl < nchild:
+                        stage = "child"
                         cur = dclab.new_dataset(cur)
                         keep.append(cur)
+                stage = "export"
                 cur.export.hdf5(path, features=feats_arg, filtered=filtered,
                                 basins=True)
         except Exception as e:  # noqa
-            known = T_CHILD if child_taint else (T_FAST if fast_taint else None)
-            if known is None:
+            if stage == "child" and trace_mapped and isinstance(e, TypeError):
+                sig = "child-raises/trace-via-mapped-basin/TypeError"
+            elif stage == "export" and child_taint:
+                sig = f"export-raises/{T_CHILD}/{type(e).__name__}"
+            elif stage == "export" and fast_taint:
+                sig = f"export-raises/{T_FAST}/{type(e).__name__}"
+            else:
                 raise
-            rec.fail(f"export-raises/{known}/{type(e).__name__}",
-                     f"export.hdf5 raised {type(e).__name__}: {e} "
+            rec.fail(sig,
+                     f"{stage} raised {type(e).__name__}: {e} "
                      f"(source {src.born}, {nchild} child level(s), "
                      f"filtered={filtered}, stored={stored})")
             rec.cls("export:raised-known")
@@ -693,13 +722,25 @@ class Run:
 
     def step_copy(self, st_):
         rec = self.rec
-        src = self.pick_src(st_["src"])
+        src = self.pick_src(st_["src"], avoid_origin=st_["src"] < 9)
         self.model.reset()
         path = self.newpath(st_["sub"], "copy")
         mode = st_["features"]
-        with h5py.File(src.path, "r") as h5s, RTDCWriter(path) as hw:
-            rtdc_copy(src_h5file=h5s, dst_h5file=hw.h5file, features=mode,
-                      include_basins=True)
+        try:
+            with h5py.File(src.path, "r") as h5s, RTDCWriter(path) as hw:
+                rtdc_copy(src_h5file=h5s, dst_h5file=hw.h5file, features=mode,
+                          include_basins=True)
+        except ValueError as e:
+            if len(src.basins) < 2:
+                raise
+            rec.fail(f"copy-raises/multiple-basin-definitions/{type(e).__name__}",
+                     f"rtdc_copy(features={mode!r}, include_basins=True) of a file "
+                     f"with {len(src.basins)} basin definitions raised "
+                     f"{type(e).__name__}: {e}")
+            rec.cls("copy:raised-known")
+            if path.exists():
+                path.unlink()
+            return
 
         def selected(f):
             return mode == "all" or (mode == "scalar" and kind_of(f) == "scalar")
@@ -721,6 +762,10 @@ class Run:
         self.model.files.append(mf)
         rec.cls("copy")
         rec.cls(f"copy:{mode}")
+        if any(b.kind == "file" for b in mf.basins):
+            rec.cls("copy:with-file-basin")
+        if any(b.kind == "internal" for b in src.basins):
+            rec.cls("copy:src-with-internal-basin")
 
     def step_move(self):
         if self.moved or len(self.model.files) < 2:
@@ -753,13 +798,15 @@ class Run:
         listed = model.listed(f)
         names = sorted(model.names(f))
         with dclab.new_dataset(f.path) as ds:
-            rec.check(len(ds) == f.n, f"len/{f.born}",
+            rec.check(len(ds) == f.n,
+                      sg("len", sorted(set(f.taint.values()))[0]) if f.taint
+                      else f"len/{f.born}",
                       lambda: f"len(ds)={len(ds)}, model {f.n} ({f.name}, {phase})")
             got_b = {x for x in ds.features_basin if not x.startswith("basinmap")}
             tainted_file = bool(f.taint)
             rec.check(got_b == {x for x in listed if not x.startswith("basinmap")},
-                      f"features_basin/{f.born}"
-                      + (f"/{sorted(set(f.taint.values()))[0]}" if tainted_file else ""),
+                      sg("features_basin", sorted(set(f.taint.values()))[0])
+                      if tainted_file else f"features_basin/{f.born}",
                       lambda: f"features_basin={sorted(got_b)}, model "
                               f"{sorted(listed)} ({f.name}, {phase})")
             innate = set(ds.features_innate)
@@ -788,16 +835,16 @@ class Run:
                     rec.cls("depth>=4")
                 where = f"{f.name} [{f.born}, {phase}] feature {feat} via {via} " \
                         f"({hops} hop(s))"
-                rec.check(feat in ds, f"contains/{kind}/{cls}",
+                rec.check(feat in ds, sg("contains", cls, kind),
                           lambda: f"{where}: `feat in ds` is False")
                 rec.check((feat in innate) == (feat in f.own),
-                          f"innate/{kind}/{cls}",
+                          sg("innate", cls, kind),
                           lambda: f"{where}: in features_innate={feat in innate}, "
                                   f"model own={feat in f.own}")
                 try:
                     obj = ds[feat]
                 except Exception as e:  # noqa
-                    rec.fail(f"getitem-raises/{kind}/{cls}/{type(e).__name__}",
+                    rec.fail(sg("getitem-raises", cls, kind, type(e).__name__),
                              f"{where}: ds[feat] raised {type(e).__name__}: {e}")
                     continue
                 nroutes = 0
@@ -808,8 +855,8 @@ class Run:
                         try:
                             subs.append((t, obj[t]))
                         except Exception as e:  # noqa
-                            rec.fail(f"raises/trace/{cls}/name-lookup/"
-                                     f"{type(e).__name__}",
+                            rec.fail(sg("raises", cls, "trace", "name-lookup",
+                                        type(e).__name__),
                                      f"{where}: ds['trace'][{t!r}] raised "
                                      f"{type(e).__name__}: {e}")
                     for t, o in subs:
@@ -827,19 +874,19 @@ class Run:
         # length and shape
         try:
             ln = len(obj)
-            rec.check(ln == n, f"len/{kind}/{cls}",
+            rec.check(ln == n, sg("len", cls, kind),
                       lambda: f"{where}: len(feature)={ln}, model {n}")
         except Exception as e:  # noqa
-            rec.fail(f"raises/{kind}/{cls}/len/{type(e).__name__}",
+            rec.fail(sg("raises", cls, kind, "len", type(e).__name__),
                      f"{where}: len() raised {e}")
         if kind != "contour":
             try:
                 shp = tuple(obj.shape)
                 exp = np.asarray(cs[0][0]).shape
-                rec.check(shp == exp, f"shape/{kind}/{cls}",
+                rec.check(shp == exp, sg("shape", cls),
                           lambda: f"{where}: .shape={shp}, model {exp}")
             except Exception as e:  # noqa
-                rec.fail(f"raises/{kind}/{cls}/shape/{type(e).__name__}",
+                rec.fail(sg("raises", cls, kind, "shape", type(e).__name__),
                          f"{where}: .shape raised {e}")
         for r in acc:
             name = r["r"]
@@ -866,7 +913,7 @@ class Run:
                 else:
                     got = obj[key]
             except Exception as e:  # noqa
-                rec.fail(f"raises/{kind}/{cls}/{rcls}/{type(e).__name__}",
+                rec.fail(sg("raises", cls, kind, rcls, type(e).__name__),
                          f"{where}: route {r} raised {type(e).__name__}: {e}")
                 continue
             rec.cls(f"route:{name}")
@@ -888,7 +935,7 @@ class Run:
                 ok = any(equal(got, e) for e in exps)
             else:
                 ok = any(equal(np.asarray(got), e) for e in exps)
-            rec.check(ok, f"value/{kind}/{cls}/{rcls}",
+            rec.check(ok, sg("value", cls, kind, rcls),
                       lambda: f"{where}: route {r}: got {_short(got)}, "
                               f"model {_short(exps[0])}")
         return done
